@@ -319,6 +319,10 @@ func init() {
 		r("AServer", "handleMsg", "leader-logs-durably", "plog[self] := [cmd |-> LogConcat, entries |-> <<entry>>]", cli+" /\\ state[self] = Leader", "the leader's new entry is made durable"),
 		r("AServer", "handleMsg", "non-leader-refuses-with-hint", "net[j] := [mtype |-> respType, msuccess |-> FALSE, mresponse |-> [idx |-> m.mcmd.idx, key |-> m.mcmd.key], mleaderHint |-> leader[i], msource |-> i, mdest |-> j]",
 			cli+" /\\ ~(state[self] = Leader)", "a server that is not the leader refuses the request, names the request's index and hints at the leader"),
+		x("AServer", "handleMsg", "refusal-typed-by-request", "with respType", "IF m.mcmd.type = Put THEN ClientPutResponse ELSE ClientGetResponse", cli+" /\\ ~(state[self] = Leader)",
+			"a refused Put is answered with a Put response, a refused Get with a Get response: the client matches answers by type"),
+		x("AServer", "handleMsg", "durable-truncation-starts-after-prev", "with index", "m.mprevLogIndex + 1", apq+" /\\ ~"+rejectAE, "what is cut from the durable log starts right behind the agreed prefix"),
+		r("AServerBecomeLeader", "serverBecomeLeaderLoop", "new-leader-starts-replicating", "appendEntriesCh[srvId] := TRUE", "becomeLeaderCh[srvId]", "a new leader announces itself at once (the first round of AppendEntries doubles as the heartbeat)"),
 		x("AServerRequestVote", "serverRequestVoteLoop", "election-waits-for-quiet-inbox", "await", "netLen[srvId] = 0", "", "an election starts only when no message is waiting"),
 		r("AServerRequestVote", "requestVoteLoop", "asks-every-server", "idx := idx + 1", "idx <= NumServers", "votes are requested from one server after the other, all of them"),
 		r("AServerAppendEntries", "appendEntriesLoop", "replicates-to-every-server", "idx := idx + 1", "state[srvId] = Leader /\\ idx <= NumServers", "entries are sent to one server after the other, all of them, while leader"),
